@@ -521,7 +521,13 @@ class Interp:
         d0 = self.deref_val(a0) if a0 is not None else None
         # --- `.await` plumbing: a future is driven to completion at its first poll (no interleaving is modelled);
         # a future that is not a crate-local coroutine is an opaque token whose output the oracle names
+        if name == "is_disabled" and "tracing::Span" in path + full:
+            return Int(1)    # #[instrument]: both arms await the same future; the disabled arm awaits it directly
         if name == "into_future" and len(args) == 1:
+            return a0
+        if name in ("instrument", "in_current_span", "with_subscriber", "with_current_subscriber", "boxed", "boxed_local", "or_current") and d0 is not None and d0[0] == "closure":
+            return a0   # future wrappers that do not change what the future computes (tracing::Instrument, FutureExt::boxed)
+        if name in ("pin", "new") and len(args) == 1 and d0 is not None and d0[0] == "closure" and ("boxed::Box" in path + full or "pin::Pin" in path + full):
             return a0
         if name == "new_unchecked" and len(args) == 1 and "pin::Pin" in path + full:
             return a0
